@@ -62,16 +62,17 @@ def iter_graph(n):
     """state graph of the iterator contract over n items: nodes = windows (lo,hi), edges = operations.
     returns {"nodes": [[lo,hi],...], "edges": [[src_idx, op, k, dst_idx],...], "stats":...}"""
     d = stim_dir()
-    cache = os.path.join(d, f"itergraph_{n}.json")
+    cache = os.path.join(d, f"itergraph2_{n}.json")
     if os.path.exists(cache):
         return json.load(open(cache))
     rundir = os.path.join(d, f"run_iter_{n}")
     os.makedirs(rundir, exist_ok=True)
     ks = sorted({0, 1, 2, max(n - 1, 0), n, BIG})
+    ks2 = sorted({0, 1, max(n - 1, 0), n, BIG})
     cfg = f"MC_IterAbs_{n}.cfg"
     open(os.path.join(rundir, cfg), "w").write(
-        f"SPECIFICATION Spec\nCONSTANTS N = {n}\n Ks = {{{', '.join(map(str, ks))}}}\n"
-        "INVARIANTS WindowAgrees Fused ExactSize\nPROPERTY Shrinks\nCHECK_DEADLOCK FALSE\n")
+        f"SPECIFICATION Spec\nCONSTANTS N = {n}\n Ks = {{{', '.join(map(str, ks))}}}\n Ks2 = {{{', '.join(map(str, ks2))}}}\n"
+        "INVARIANTS WindowAgrees Fused ExactSize Provided\nPROPERTY Shrinks\nCHECK_DEADLOCK FALSE\n")
     dot = os.path.join(rundir, "g.dot")
     out, st = run_tlc(rundir, "MC_IterAbs.tla", cfg, workers=1, extra=["-dump", "dot,actionlabels", dot])
     if not tlc_ok(out):
@@ -91,8 +92,9 @@ def iter_graph(n):
             nodes.append([int(w.group(1)), int(w.group(2))])
     E = []
     for a, b, lab in edges:
-        m = re.match(r"(NextF|NextB|NthB|Nth)(?:\((\d+)\))?", lab)
-        op = {"NextF": "next", "NextB": "next_back", "Nth": "nth", "NthB": "nth_back"}[m.group(1)]
+        m = re.match(r"(NextF|NextB|NthB|Nth|RTakeC|TakeC|TakeL|RFind|Find)(?:\((\d+)\))?", lab)
+        op = {"NextF": "next", "NextB": "next_back", "Nth": "nth", "NthB": "nth_back", "TakeC": "take_count", "RTakeC": "rev_take_count",
+              "TakeL": "take_last", "Find": "find", "RFind": "rfind"}[m.group(1)]
         k = int(m.group(2)) if m.group(2) else 0
         E.append([idx[a], op, k, idx[b]])
     E = sorted(set(map(tuple, E)))
@@ -129,6 +131,75 @@ def covering_paths(n, start=None):
     return paths
 
 
+def multi_graph(n, nslots):
+    """state graph of `nslots` iterators over n items operated alternately (spec/MC_IterMulti.tla):
+    nodes = tuples of windows, edges = (src, slot, op, k, dst); slots are 0-based here"""
+    d = stim_dir()
+    cache = os.path.join(d, f"multigraph_{n}_{nslots}.json")
+    if os.path.exists(cache):
+        return json.load(open(cache))
+    rundir = os.path.join(d, f"run_multi_{n}_{nslots}")
+    os.makedirs(rundir, exist_ok=True)
+    cfg = f"MC_IterMulti_{n}_{nslots}.cfg"
+    open(os.path.join(rundir, cfg), "w").write(
+        f"SPECIFICATION Spec\nCONSTANTS N = {n}\n Ks = {{1, {BIG}}}\n NSlots = {nslots}\n"
+        "INVARIANTS Commute\nPROPERTY Independent\nCHECK_DEADLOCK FALSE\n")
+    dot = os.path.join(rundir, "g.dot")
+    out, st = run_tlc(rundir, "MC_IterMulti.tla", cfg, workers=1, extra=["-dump", "dot,actionlabels", dot])
+    if not tlc_ok(out):
+        raise ToolError(f"TLC failed on MC_IterMulti N={n} slots={nslots}:\n{out[-3000:]}")
+    nodes, idx, edges = [], {}, []
+    node_re = re.compile(r'^(-?\d+) \[label="((?:[^"\\]|\\.)*)"')
+    edge_re = re.compile(r'^(-?\d+) -> (-?\d+) \[label="((?:[^"\\]|\\.)*)"')
+    for line in open(dot):
+        m = edge_re.match(line)
+        if m:
+            edges.append((m.group(1), m.group(2), m.group(3)))
+            continue
+        m = node_re.match(line)
+        if m:
+            ws = re.findall(r"lo \|-> (-?\d+), hi \|-> (-?\d+)", m.group(2))
+            if len(ws) != nslots:
+                raise ToolError(f"MC_IterMulti: cannot parse node label {m.group(2)}")
+            idx[m.group(1)] = len(nodes)
+            nodes.append([[int(a), int(b)] for a, b in ws])
+    E = set()
+    for a, b, lab in edges:
+        m = re.match(r"(NextF|NextB|NthB|Nth)\((\d+)(?:, *(\d+))?\)", lab)
+        if not m:
+            raise ToolError(f"MC_IterMulti: cannot parse edge label {lab}")
+        op = {"NextF": "next", "NextB": "next_back", "Nth": "nth", "NthB": "nth_back"}[m.group(1)]
+        E.add((idx[a], int(m.group(2)) - 1, op, int(m.group(3)) if m.group(3) else 0, idx[b]))
+    if len(nodes) != st["distinct"]:
+        raise ToolError(f"MC_IterMulti: {len(nodes)} nodes parsed for {st['distinct']} states")
+    res = {"n": n, "nslots": nslots, "nodes": nodes, "edges": [list(e) for e in sorted(E)], "stats": st}
+    atomic_dump(res, cache)
+    return res
+
+
+def multi_paths(n, nslots):
+    """one interleaving per edge of the product graph: the shortest one to the edge's source, then the edge.
+    a path is a list of (slot, op, k)"""
+    g = multi_graph(n, nslots)
+    adj = collections.defaultdict(list)
+    for a, sl, op, k, b in g["edges"]:
+        adj[a].append((sl, op, k, b))
+    s = g["nodes"].index([[1, n]] * nslots if n > 0 else [[1, 0]] * nslots)
+    pre = {s: []}
+    q = collections.deque([s])
+    while q:
+        u = q.popleft()
+        for sl, op, k, v in adj[u]:
+            if v not in pre:
+                pre[v] = pre[u] + [(sl, op, k)]
+                q.append(v)
+    paths = []
+    for u in sorted(pre, key=lambda x: (len(pre[x]), x)):
+        for sl, op, k, v in adj[u]:
+            paths.append(pre[u] + [(sl, op, k)])
+    return paths
+
+
 def first_ops(n, start):
     """all single operations from a start window (for range(a,b) constructors)"""
     g = iter_graph(n)
@@ -142,6 +213,9 @@ if __name__ == "__main__":
     for n in range(1, 7):
         g = iter_graph(n)
         print(n, len(g["nodes"]), len(g["edges"]), len(covering_paths(n)), g["stats"])
+    for n, k in ((3, 2), (2, 3), (4, 2)):
+        g = multi_graph(n, k)
+        print("multi", n, k, len(g["nodes"]), len(g["edges"]), len(multi_paths(n, k)), g["stats"])
     with ThreadPoolExecutor(4) as ex:
         for res in ex.map(corpus_sets, sys.argv[1:] or ["i8", "u8"]):
             print(res["repr"], len(res["cases"]), res["stats"], res["cases"][5])
